@@ -193,7 +193,7 @@ Qed.
 Lemma model_a_range eps t cells m c v :
   forallb cell_ok cells = true -> model_a eps t cells m c = Some v -> 0 <= v /\ v <= 1.
 Proof.
-  intros OK H. unfold model_a in H.
+  intros OK H. unfold model_a, model_a_with in H.
   destruct (mfixed m || _ || _); [|discriminate]. injection H as <-. apply get_a_range. exact OK.
 Qed.
 
@@ -611,11 +611,14 @@ Proof.
 Qed.
 End Ext.
 
-(* the tabulated rows used by the comparator *)
-Definition tab_ent (eps t : Qc) (cells : list cell) (m : module) : ent :=
-  let row := map (fun ic => a_ent eps t cells m (fst ic)) (icells cells) in (m, fun c => nth c row (EC 0)).
+(* the tabulated rows used by the comparator: the neighbours of every cell once, the row of every module once *)
+Definition tab_ent (nbs : list (list nat)) (t : Qc) (cells : list cell) (m : module) : ent :=
+  let row := map (fun ic => match model_a_with (nth (fst ic) nbs []) t cells m (fst ic) with
+                            | Some v => EC v | None => EV (VA (mname m) (fst ic)) end) (icells cells) in
+  (m, fun c => nth c row (EC 0)).
 Definition gen_system_fast pow32 eps t die mods areas cells edges : option system :=
-  gen_system_of pow32 die mods areas cells edges (tab_ent eps t cells).
+  let nbs := nb_table eps cells in
+  gen_system_of pow32 die mods areas cells edges (tab_ent nbs t cells).
 
 Lemma nth_indexed_map {A B} (g : nat -> B) (d : B) (l : list A) : forall i c, (c < List.length l)%nat ->
   nth c (map (fun ic => g (fst ic)) (indexed_from i l)) d = g (i + c)%nat.
@@ -626,10 +629,17 @@ Proof.
   - rewrite IH by lia. f_equal. lia.
 Qed.
 
+Lemma model_a_tab eps t cells m c : (c < List.length cells)%nat ->
+  model_a_with (nth c (nb_table eps cells) []) t cells m c = model_a eps t cells m c.
+Proof. intro Hc. unfold model_a, nb_table. rewrite (nth_indexed_map (neighbours eps cells)); auto. Qed.
+
 Theorem gen_system_fast_same pow32 eps t die mods areas cells edges :
   gen_system_fast pow32 eps t die mods areas cells edges = gen_system pow32 eps t die mods areas cells edges.
 Proof.
-  unfold gen_system_fast, gen_system. apply gen_system_of_ext.
+  unfold gen_system_fast, gen_system. cbv zeta. apply gen_system_of_ext.
   - intro m. reflexivity.
-  - intros m c Hc. unfold tab_ent, ent_of, icells. cbn [snd]. rewrite (nth_indexed_map (a_ent eps t cells m)); auto.
+  - intros m c Hc. unfold tab_ent, ent_of, icells. cbn [snd].
+    rewrite (nth_indexed_map (fun k => match model_a_with (nth k (nb_table eps cells) []) t cells m k with
+                                       | Some v => EC v | None => EV (VA (mname m) k) end)); auto.
+    cbn [Nat.add]. unfold a_ent. rewrite model_a_tab; auto.
 Qed.
